@@ -37,6 +37,7 @@ type AScenario struct {
 	Cycle   []Op     `json:"cycle"`
 	Reps    int      `json:"reps"`
 	Only    string   `json:"only,omitempty"`        // replay: restrict I5 to this API
+	Flush   bool     `json:"flush,omitempty"`       // every pool loses its content after each cycle (what a GC does to sync.Pool); I3/I3b only
 	Variety []string `json:"variety_hex,omitempty"` // distinct inputs for the variety phase (I7)
 	Slow    []bool   `json:"slow,omitempty"`        // haystacks left out as too slow (decided by wall clock on first execution, recorded so that a replay takes the same decisions)
 }
@@ -122,6 +123,22 @@ func genAlloc(seed uint64, index int, tier string) *AScenario {
 		}
 		sc.Hays = append(sc.Hays, hex.EncodeToString(genHaystack(hr, sc.Pattern, re, alpha, pick(hr, []int{1, 2, 2, 3, 3}))))
 	}
+	if gr := r.fork(12); gr.p(1, 6) && len(sc.Hays) > 0 {
+		// one input of 33..130 KB (an earlier one repeated): thresholds that only large
+		// inputs cross (multi-megabyte visited tables, size-classed buffers)
+		base, _ := hex.DecodeString(sc.Hays[gr.n(len(sc.Hays))])
+		if len(base) > 0 {
+			want := gr.between(33000, 130000)
+			big := make([]byte, 0, want+len(base))
+			for len(big) < want {
+				big = append(big, base...)
+			}
+			// appended after nh was fixed: the repeated cycle and the variety phase never use
+			// it (a 100 KB input in a 300-cycle plateau would take minutes); only the
+			// allocation measurements I5/I5b do
+			sc.Hays = append(sc.Hays, hex.EncodeToString(big))
+		}
+	}
 	vr := r.fork(7)
 	if vr.p(1, 2) {
 		for i := 0; i < 130; i++ {
@@ -153,6 +170,25 @@ func genAlloc(seed uint64, index int, tier string) *AScenario {
 			op = genOp(or, h, len(sc.Hays[h])/2)
 		}
 		sc.Cycle = append(sc.Cycle, op)
+	}
+	fr := r.fork(11)
+	if fr.p(1, 4) {
+		// "garbage collections in between": after every cycle all pools are emptied. A cycle
+		// that needs two states at once (a callback re-entering the value) then makes the
+		// pool's New run in every cycle; whatever New retains beyond the state it returns
+		// shows as growth of the reachable bytes (I3b).
+		sc.Flush = true
+		if fr.p(2, 3) {
+			// an enumeration over an input whose last match ends exactly at the end of the
+			// input: several strategies probe "at == len" through a second entry point that
+			// checks out a second state while the loop still holds the first
+			h := fr.n(nh)
+			if hb, err := hex.DecodeString(sc.Hays[h]); err == nil && re != nil {
+				hb = append(hb, genMatch(fr, re, 0)...)
+				sc.Hays[h] = hex.EncodeToString(hb)
+			}
+			sc.Cycle = append(sc.Cycle, Op{API: pick(fr, []string{"Count", "FindAllIndex", "AllIndexNested"}), H: h, N: -1})
+		}
 	}
 	sc.Reps = pick(or, []int{40, 100, 300})
 	if tier == "thorough" {
@@ -384,10 +420,31 @@ func runAlloc(sc *AScenario) *AOutcome {
 			nfaSize = n
 		}
 	}
+	if n := len(sc.Pattern) * 2; n > nfaSize {
+		// no DFA and no backtracker to ask (NFA-only strategies): the pattern's length is a
+		// serviceable proxy for the size of its automaton
+		nfaSize = n
+	}
 	slow := make([]bool, len(hb))
+	recorded := len(sc.Slow) == len(hb) // replay: take the decisions the failing run took
 	for i := range hb {
 		n := len(hb[i])
 		slow[i] = n*(n/64+1)/1000*nfaSize > 50000
+		if recorded {
+			slow[i] = sc.Slow[i]
+		} else if slow[i] && n >= 33000 && n*nfaSize < 40000000 {
+			// the one deliberately huge input: the bound above would always leave it out.
+			// Probe it once; only a call that is actually fast is measured. This is the one
+			// place a clock is read: it decides which measurements are taken (recorded in the
+			// scenario for replay), never what a measurement means.
+			t0 := time.Now()
+			re.Match(hb[i])
+			if time.Since(t0) < 8*time.Millisecond {
+				t0 = time.Now()
+				re.Count(hb[i], -1)
+				slow[i] = time.Since(t0) > 12*time.Millisecond
+			}
+		}
 		if !slow[i] {
 			re.Count(hb[i], -1)
 		}
@@ -435,6 +492,95 @@ func runAlloc(sc *AScenario) *AOutcome {
 			}
 		}
 	}
+	// I5b alternation: "for any haystack" also means for any order of haystacks. After
+	// warm-up on both, alternating a large and a small input must allocate nothing either
+	// (a buffer released because the previous call needed less, then re-allocated).
+	if sc.Only == "" || strings.HasPrefix(sc.Only, "alt:") {
+		big, small := -1, -1
+		for i := range hb {
+			if slow[i] {
+				continue
+			}
+			if big < 0 || len(hb[i]) > len(hb[big]) {
+				big = i
+			}
+			if small < 0 || len(hb[i]) < len(hb[small]) {
+				small = i
+			}
+		}
+		if big >= 0 && small >= 0 && big != small {
+			nb := len(hb[big])
+			for _, za := range zeroAPIs {
+				if sc.Only != "" && sc.Only != "alt:"+za.name {
+					continue
+				}
+				switch za.name {
+				case "Match", "Engine.FindIndices", "Count", "AllIndex", "AppendAllIndex":
+				default:
+					continue // the string variants share their byte twins' paths
+				}
+				if nb < 33000 && nb*(nb/64+1)/1000*nfaSize > 8000 {
+					continue // a call on the large input is expensive: I5 already paid for it once
+				}
+				sub := func() { re.FindSubmatchIndex(hb[small]) }
+				for variant := 0; variant < 2; variant++ {
+					f := func() {
+						za.fn(re, hb[big], hs[big], &buf)
+						if variant == 0 {
+							za.fn(re, hb[small], hs[small], &buf)
+						} else {
+							sub() // a call of another family in between (captures are not zero-allocation themselves)
+						}
+					}
+					f()
+					f()
+					const runs = 6
+					c0 := totalClears(re)
+					var base uint64
+					if variant == 1 {
+						// cost of the interposed capture call alone, measured the same way
+						sub()
+						m := mallocs()
+						for k := 0; k < runs; k++ {
+							sub()
+						}
+						base = mallocs() - m
+					}
+					m0 := mallocs()
+					for k := 0; k < runs; k++ {
+						f()
+					}
+					n := mallocs() - m0
+					if c1 := totalClears(re); c1 != c0 || c1 >= 1<<20 {
+						out.Gated++
+						continue
+					}
+					out.ZeroCalls++
+					if n > base+runs/2 {
+						sites := allocSites(func() { za.fn(re, hb[big], hs[big], &buf); za.fn(re, hb[small], hs[small], &buf) })
+						if variant == 1 {
+							own := map[string]bool{}
+							for _, s := range allocSites(sub) {
+								own[s] = true
+							}
+							sites = nil
+							for _, s := range allocSites(func() { sub(); za.fn(re, hb[big], hs[big], &buf) }) {
+								if !own[s] {
+									sites = append(sites, s)
+								}
+							}
+						}
+						if len(sites) == 0 {
+							sites = []string{"<no library frame found>"}
+						}
+						for _, s := range sites {
+							fail("alloc", fmt.Sprintf("%s allocates at %s (%d allocations in %d alternations of haystack %d and %s, %d for the interposed calls alone)", za.name, s, n, runs, big, map[int]string{0: fmt.Sprintf("haystack %d", small), 1: "a FindSubmatchIndex call"}[variant], base))
+						}
+					}
+				}
+			}
+		}
+	}
 	if sc.Only != "" {
 		return out
 	}
@@ -443,6 +589,9 @@ func runAlloc(sc *AScenario) *AOutcome {
 	var fp, deepFp []int
 	maxEarly, maxEarlyDeep := 0, 0
 	for c := 0; c < sc.Reps; c++ {
+		if sc.Flush && c > 0 {
+			simrt.PoolFlush()
+		}
 		for i := range sc.Cycle {
 			if !slow[sc.Cycle[i].H] {
 				execOp(re, &sc.Cycle[i], hb, hs)
@@ -599,6 +748,11 @@ func allocBatch(base uint64, from, to int, tier string, budget time.Duration, st
 		out := runAlloc(sc)
 		if d := time.Since(t0); d > slowest {
 			slowest, slowestIdx = d, i
+			var lens []int
+			for _, h := range sc.Hays {
+				lens = append(lens, len(h)/2)
+			}
+			sum.Extra["slowest_scenario"] = fmt.Sprintf("%q knobs=%+v lens=%v slow=%v flush=%v reps=%d cycle=%d variety=%d", sc.Pattern, sc.Knobs, lens, sc.Slow, sc.Flush, sc.Reps, len(sc.Cycle), len(sc.Variety))
 		}
 		if out.Class == "compile" {
 			continue
